@@ -1,7 +1,7 @@
 """C03 - the KV store behaves as a sequential versioned map (spec/Store.tla KV part)."""
 from checks import storefam
 
-PREDS = {"kv-state", "KeysUnique", "CreateIndexStable", "ModifyIndexRule", "read-get", "read-list",
+PREDS = {"read-keys", "read-keys-idx", "kv-state", "KeysUnique", "CreateIndexStable", "ModifyIndexRule", "read-get", "read-list",
          "txn-results", "txn-state", "txn-outcome"}
 DOC = {
     "kv-state": "kv rows and tombstones after the step equal Store!ApplyAt(pre_impl, cmd)",
@@ -24,6 +24,7 @@ def run(tier):
         gen_depth={"quick": {"kv": 3}, "thorough": {"kv": 4}},
         rnd={"quick": [("kv", 40, 200)], "thorough": [("kv", 400, 300), ("txn", 150, 200)]},
         level_text="", pred_doc=DOC,
+        rpc={"quick": [("kv", 4, 80)], "thorough": [("kv", 25, 150)]},
         assumptions=["TLC 1.8 evaluates spec/StoreTrace.tla correctly", "projection h-store/internal/storeh copies fields only",
                      "keys are non-empty byte strings without NUL (the KV endpoint rejects empty keys)",
                      "session IDs are UUIDs minted by the endpoint and never re-used while live"])
